@@ -185,3 +185,34 @@ Theorem frozen_no_effect s v d a bal h m ro pb ff :
   step s (OUnstake v d a true ro h m pb ff) = (s, false) /\
   step s (OWithdraw v d a true ff) = (s, false).
 Proof. repeat split. Qed.
+
+(* ---------- C11_maturity (step level) ---------- *)
+(* a successful UNSTAKE at height h with maturity option m creates exactly one entry, at h + m,
+   and leaves the withdrawable amounts alone *)
+Theorem unstake_entry s v d a ro h m pb ff s' :
+  step s (OUnstake v d a false ro h m pb ff) = (s', true) ->
+  mat s' = <[h + m := mat_at s (h + m) ++ [(d, a)]]> (mat s) /\ dbnd s' = dbnd s.
+Proof.
+  simpl. unfold do_unstake. destruct ro; [discriminate|].
+  destruct (minus3_cases s v d a) as [E|[[s1 E]|[[s1 E]|[s3 [E (_ & _ & _ & Eb & Em & _)]]]]]; rewrite E; try discriminate.
+  destruct (vrecs s !! v); [|discriminate]. destruct pb; [discriminate|]. destruct ff; [discriminate|].
+  intros Heq. inversion Heq; subst; clear Heq. simpl. unfold mat_at. simpl. rewrite Em, Eb. split; reflexivity.
+Qed.
+
+(* outside the end-block hook the withdrawable amount of nobody grows, for non-negative amounts *)
+Theorem withdrawable_not_growing_in_tx s o d' :
+  trig_negative o = false ->
+  match o with OStake _ _ _ _ _ _ _ _ _ | OUnstake _ _ _ _ _ _ _ _ _ | OWithdraw _ _ _ _ _ | OBegin _ => True | _ => False end ->
+  zget (dbnd (fst (step s o))) d' <= zget (dbnd s) d'.
+Proof.
+  intros Hn Hk. destruct o; try contradiction; simpl.
+  - unfold do_stake. destruct frozen; [simpl; lia|]. destruct (stake_update s v d h m); [|simpl; lia].
+    destruct (bal - debit_of a <? 0); [simpl; lia|]. destruct purge_block; [simpl; lia|]. destruct fee_fail; simpl; lia.
+  - unfold do_unstake. destruct frozen; [simpl; lia|]. destruct req_open; [simpl; lia|].
+    destruct (minus3_cases s v d a) as [E|[[s1 E]|[[s1 E]|[s3 [E (_ & _ & _ & Eb & _)]]]]]; rewrite E; try (simpl; lia).
+    destruct (vrecs s !! v); [|simpl; lia]. destruct purge_block; [simpl; lia|]. destruct fee_fail; simpl; [lia|]. rewrite Eb. lia.
+  - unfold do_withdraw. destruct frozen; [simpl; lia|]. destruct (zget (dbnd s) d - a <? 0); [simpl; lia|].
+    destruct fee_fail; simpl; [lia|]. unfold trig_negative in Hn. simpl in Hn.
+    rewrite zget_zadd. destruct (decide (d = d')) as [->|]; lia.
+  - lia.
+Qed.
